@@ -54,6 +54,15 @@ def make_cases(rng, tier):
         if i % 10 == 5:
             inc = EXISTING_REL       # a path that exists relative to ONE of the working directories only
         out.append({"id": i, "wgsl": w, "include": inc, "opts": o, "want_text": True, "nt": nt})
+    # calls the generator answers with its documented panic (a struct ending in a runtime-sized array without the encase
+    # derive), spread over the list: whatever such a call leaves behind, every other call returns what it returns alone
+    for j in range(5):
+        w = ("struct Tail%d { n: u32, items: array<vec4<f32>> }\n@group(0) @binding(0) var<storage, read> t%d: Tail%d;\n"
+             "@compute @workgroup_size(1) fn main() { _ = t%d.n; }\n" % (j, j, j, j))
+        out.insert((j * len(out)) // 5, {"id": -1, "wgsl": w, "include": None, "opts": {"encase": False, "bm_host": j % 2 == 0, "rustfmt": j == 3},
+                                         "want_text": True, "nt": True})
+    for i_, c_ in enumerate(out):
+        c_["id"] = i_
     # several formatted outputs well above the 64 KiB pipe buffer, generated concurrently by the worker threads
     for j in range(4):
         nst = 280 + 10 * j
@@ -184,6 +193,38 @@ def run(tier, seed, replay):
                                    "wgsl": storm[j]["wgsl"], "opts": storm[j]["opts"], "include": storm[j]["include"],
                                    "variant": {"workers": 64}, "first": (storm_res[0][j][1] or "")[:1500], "other": (storm_res[1][j][1] or "")[:1500], "kf": None})
                 break
+    # a transient fault in the middle of a history: during ONE call the formatter cannot be found (that call falls back to the
+    # unformatted text); the calls before and after it, with equal arguments, return equal texts
+    hist = []
+    for j, (src_i, fault) in enumerate([(0, None), (1, None), (2, "/nonexistent-dir"), (0, None), (1, None), (2, None), (3, "/nonexistent-dir"), (0, None)]):
+        c_ = dict(storm[src_i])
+        c_["id"] = j
+        if fault:
+            c_["path_env"] = fault
+        hist.append((src_i, fault, c_))
+    cin = os.path.join(workdir, "history.jsonl")
+    cout = os.path.join(workdir, "history.results.jsonl")
+    with open(cin, "w") as f:
+        for _, _, c_ in hist:
+            f.write(json.dumps(c_, ensure_ascii=False) + "\n")
+    p = subprocess.run([DRIVER, "gen", cin, cout], env=dict(os.environ, DRIVER_THREADS="1", DRIVER_CHUNK="1"), stdout=subprocess.PIPE, stderr=subprocess.STDOUT, timeout=600)
+    if p.returncode != 0:
+        broken.append({"what": "driver failed in the transient-fault history", "detail": p.stdout.decode(errors="replace")[-1000:]})
+    else:
+        hres = [json.loads(l) for l in open(cout)]
+        evals += len(hres)
+        seen = {}
+        for (src_i, fault, c_), r_ in zip(hist, hres):
+            if fault:
+                continue
+            key = src_i
+            val = (r_.get("result"), r_.get("text"))
+            if key in seen and seen[key] != val:
+                violations.append({"what": "a call returned a different text after an earlier call in the same process had failed to find the formatter (calls with equal arguments before and after a transient fault differ)",
+                                   "wgsl": c_["wgsl"], "opts": c_["opts"], "include": c_["include"], "variant": {"history": [(a, b) for a, b, _ in hist]},
+                                   "first": (seen[key][1] or "")[:1500], "other": (val[1] or "")[:1500], "kf": None})
+                break
+            seen.setdefault(key, val)
     # a formatter that needs several seconds (and then formats normally): the text must not depend on how long it took
     rc_, out_ = sh("command -v rustfmt")
     real_fmt = out_.strip().split("\n")[-1] if rc_ == 0 else None
